@@ -67,16 +67,18 @@ U64 = 2**64 - 1
 
 
 def fai_kernel(res, k):
-    # arithmetic kernel of fai::Record::query: bb12..bb17 in the MIR of the pinned source; the locals
-    # bound here are (by the MIR) _12 = 0-based start, _13 = line_base_count, _15 = line_width,
-    # _19 = position.  If the MIR shape changes the engine reports INCONCLUSIVE (fails closed).
-    return (res, FAI_QUERY, [], {"entry": "bb12", "bind": {"_12": k, "_13": "lbc", "_15": "lw", "_19": "pos"}, "result": "_17"})
+    # arithmetic kernel of fai::Record::query: bb12..bb21 in the MIR of the current source (offset computed
+    # in u128, then narrowed by u64::try_from, which is std and outside the kernel); the locals bound
+    # here are (by the MIR) _12 = 0-based start, _13 = line_base_count, _15 = line_width, _20 = position;
+    # the result _17 is the u128 offset.  If the MIR shape changes the engine reports INCONCLUSIVE
+    # (fails closed).
+    return (res, FAI_QUERY, [], {"entry": "bb12", "bind": {"_12": k, "_13": "lbc", "_15": "lw", "_20": "pos"}, "result": "_17"})
 
 
 def fai_query_induction():
     return {
         "id": "O11.1/fai-offset-induction", "props": ["C11"], "tier": "quick", "crate": "noodles-fasta",
-        "fns": "fai::Record::query (arithmetic kernel: position + start/line_bases*line_width + start%line_bases)",
+        "fns": "fai::Record::query (arithmetic kernel: u128 offset = position + start/line_bases*line_width + start%line_bases; narrowed by u64::try_from)",
         "bound": "ALL u64 geometries with 1 <= line_bases <= line_width and a file that fits in u64 (offset of base k+1 computable); ALL 0-based base indices k: q(0)=position, q(k+1)-q(k) = 1 inside a line and 1+(line_width-line_bases) across a line end => by induction q(k) is the byte offset of base k; exact u64 semantics, MIR asserts as separate queries",
         "vars": {"k": (0, U64), "k1": (0, U64), "lbc": (1, U64), "lw": (1, U64), "pos": (0, U64), "zero": (0, 0)},
         "assume": ["(= $k1 (+ $k 1))", "(<= $lbc $lw)",
@@ -84,19 +86,20 @@ def fai_query_induction():
                    "(< (+ $pos (* (+ (div $k1 $lbc) 1) $lw)) 18446744073709551616)"],
         "steps": [fai_kernel("q0", "zero"), fai_kernel("qa", "k"), fai_kernel("qb", "k1")],
         "goals": [
+            ("the offset of a base inside the file fits u64 (try_from succeeds)", "(< $qb 18446744073709551616)"),
             ("base 0 is at `position`", "(= $q0 $pos)"),
             ("next base inside a line is the next byte", "(=> (not (= (mod $k1 $lbc) 0)) (= $qb (+ $qa 1)))"),
             ("next base across a line end skips exactly the line terminator", "(=> (= (mod $k1 $lbc) 0) (= $qb (+ $qa 1 (- $lw $lbc))))"),
         ],
         "outputs": ["qa", "qb"],
         "sources": {},
-        "native_prelude": "fn kernel(pos: u64, start: u64, lbc: u64, lw: u64) -> u64 { let line_base_count = lbc; let line_width = lw; let position = pos; /*EXTRACT*/ }",
+        "native_prelude": "fn kernel(pos: u64, start: u64, lbc: u64, lw: u64) -> u128 { let line_base_count = lbc; let line_width = lw; let position = pos; /*EXTRACT*/ }",
         "native_types": {"k": "u64", "k1": "u64", "lbc": "u64", "lw": "u64", "pos": "u64", "zero": "u64"},
         "native_eval": 'println!("{} {}", kernel(pos, k, lbc, lw), kernel(pos, k1, lbc, lw));',
-        "native_check": "let (a, b) = (kernel(pos, k, lbc, lw), kernel(pos, k1, lbc, lw)); if k1 % lbc != 0 { assert_eq!(b, a + 1); } else { assert_eq!(b, a + 1 + (lw - lbc)); } assert_eq!(kernel(pos, 0, lbc, lw), pos);",
+        "native_check": "let (a, b) = (kernel(pos, k, lbc, lw), kernel(pos, k1, lbc, lw)); if k1 % lbc != 0 { assert_eq!(b, a + 1); } else { assert_eq!(b, a + 1 + (lw - lbc) as u128); } assert_eq!(kernel(pos, 0, lbc, lw), pos as u128); assert!(b <= u64::MAX as u128);",
         "vectors": [{"k": 0, "k1": 1, "lbc": 60, "lw": 61, "pos": 7, "zero": 0}, {"k": 59, "k1": 60, "lbc": 60, "lw": 62, "pos": 100, "zero": 0},
                     {"k": 12345678, "k1": 12345679, "lbc": 80, "lw": 81, "pos": 4242, "zero": 0}],
-        "native_expr": ("noodles-fasta/src/fai/record.rs", r"let pos = (self\.position\(\) \+ start / line_base_count \* line_width \+ start % line_base_count);"),
+        "native_expr": ("noodles-fasta/src/fai/record.rs", r"let pos = (u128::from\(self\.position\(\)\)\s*\+ u128::from\(start / line_base_count\) \* u128::from\(line_width\)\s*\+ u128::from\(start % line_base_count\));"),
         "timeout": 60,
     }
 
@@ -105,7 +108,7 @@ def fai_query_no_panic():
     q = fai_query_induction()
     q.update({
         "id": "O15.fai-query-arbitrary-record", "props": ["C15"],
-        "bound": "ARBITRARY fai record as an index file can supply it (any u64 position, line_bases >= 1, line_width >= 1 -- both NonZero) and ANY 0-based start: the offset arithmetic of fai::Record::query does not panic (every MIR overflow assert is a query)",
+        "bound": "ARBITRARY fai record as an index file can supply it (any u64 position, line_bases >= 1, line_width >= 1 -- both NonZero) and ANY 0-based start: the offset arithmetic of fai::Record::query does not panic (every MIR overflow / division assert is a query; the u128 result is then narrowed by u64::try_from -> InvalidInput)",
         "assume": [],
         "vars": {"k": (0, U64), "lbc": (1, U64), "lw": (1, U64), "pos": (0, U64)},
         "steps": [fai_kernel("qa", "k")],
